@@ -112,6 +112,49 @@ def check_sequencing():
                     bad(f"{backend} {name}: {k} gives {np.round(v, 4).tolist()} but the concatenated program gives {np.round(ref, 4).tolist()}", fid)
 
 
+def check_repeated_feedforward_segment():
+    """C10/C09: a measured parameter evaluates to the MOST RECENT outcome of its mode also when the feed-forward segment is
+    the same Program object run again after the mode was re-measured by another segment.  Every sequence of <= 4 segments
+    over {M_k: homodyne on q0 selecting a distinct value, F: Xgate(q0.par) | q1 (one object, reused)} that starts with a
+    measurement; one run([..]) call and one call per segment; closed form <x_1> = sum of the latest outcome at each F."""
+    vals = [0.5, -1.5, 0.9, -0.3]
+    for L in (2, 3, 4):
+        for pat in itertools.product("MF", repeat=L - 1):
+            pat = ("M",) + pat
+            if pat.count("F") == 0:
+                continue
+            for how in ("one call", "call per segment"):
+                EVAL[0] += 1
+                label = "".join(pat) + " / " + how
+                try:
+                    F = sf.Program(2)
+                    with F.context as q:
+                        ops.Xgate(q[0].par) | q[1]
+                    segs, latest, expected, k = [], None, 0.0, 0
+                    for c in pat:
+                        if c == "M":
+                            m = sf.Program(2)
+                            with m.context as q:
+                                ops.MeasureHomodyne(0.0, select=vals[k]) | q[0]
+                            latest = vals[k]; k += 1
+                            segs.append(m)
+                        else:
+                            expected += latest
+                            segs.append(F)
+                    eng = sf.Engine("gaussian")
+                    if how == "one call":
+                        st = eng.run(segs).state
+                    else:
+                        for sg in segs:
+                            st = eng.run(sg).state
+                    got = st.quad_expectation(1, 0)[0]
+                except Exception as e:
+                    bad(f"repeated feed-forward segment [{label}]: raised {type(e).__name__}: {str(e)[:150]}")
+                    continue
+                if abs(got - expected) > 1e-8:
+                    bad(f"repeated feed-forward segment [{label}]: <x> of the fed-forward mode = {got:.4f}, the most recent outcomes give {expected:.4f}")
+
+
 def check_handover_with_register_changes():
     """C09: measured values cross a segment boundary by MODE (not by position) - the earlier segment deletes a lower-indexed
     mode before / after measuring, the later segment feeds the outcome forward; one call, two calls and the concatenated
@@ -471,8 +514,8 @@ def check_symbol_identity():
 
 if __name__ == "__main__":
     prop = sys.argv[3] if len(sys.argv) > 3 else "both"
-    fns = {"C09": (check_sequencing, check_handover_with_register_changes, check_reset_clears_every_outcome, check_untouched), "C10": (check_symbolic, check_measured_functions, check_array_parameters, check_symbol_identity)}.get(
-        prop, (check_sequencing, check_handover_with_register_changes, check_reset_clears_every_outcome, check_untouched, check_symbolic, check_measured_functions, check_array_parameters, check_symbol_identity))
+    fns = {"C09": (check_sequencing, check_handover_with_register_changes, check_repeated_feedforward_segment, check_reset_clears_every_outcome, check_untouched), "C10": (check_repeated_feedforward_segment, check_symbolic, check_measured_functions, check_array_parameters, check_symbol_identity)}.get(
+        prop, (check_sequencing, check_handover_with_register_changes, check_repeated_feedforward_segment, check_reset_clears_every_outcome, check_untouched, check_symbolic, check_measured_functions, check_array_parameters, check_symbol_identity))
     for f in fns:
         try:
             f()
